@@ -178,8 +178,11 @@ theorem ladder_tri_init : ladder "TriangularLinearOperator" "__init__" =
 theorem table_mul_constant_overriders : overriders "_mul_constant" =
     ["LinearOperator", "BlockLinearOperator", "CholLinearOperator", "DiagLinearOperator", "ConstantDiagLinearOperator",
      "IdentityLinearOperator", "InterpolatedLinearOperator", "KroneckerProductDiagLinearOperator",
-     "LowRankRootAddedDiagLinearOperator", "MulLinearOperator", "RootLinearOperator", "SumLinearOperator",
-     "TriangularLinearOperator"] := by decide +kernel
+     "LowRankRootAddedDiagLinearOperator", "MulLinearOperator", "RootLinearOperator", "SumKroneckerLinearOperator",
+     "SumLinearOperator", "TriangularLinearOperator"] := by decide +kernel
+/-- a constant multiple of a SumKronecker is built as a plain SumLinearOperator (608f21e). -/
+theorem builds_sumkron_mul_constant : builds "SumKroneckerLinearOperator" "_mul_constant" = some ["SumLinearOperator"] := by
+  decide +kernel
 theorem table_mul_matrix_overriders : overriders "_mul_matrix" =
     ["LinearOperator", "DiagLinearOperator", "ConstantDiagLinearOperator"] := by decide +kernel
 theorem table_mul_overriders : overriders "mul" = ["LinearOperator", "ZeroLinearOperator"] := by decide +kernel
